@@ -453,6 +453,10 @@ def check_case(case):
         from bounded import domains as D
         rng = random.Random(case["seed"])
         d = D.random_dataset(rng, 5, 4, n_min=2)
+        # names: every kind in rotation ("mixed" and "intstr": removing elements can change how the names that remain
+        # are normalised, int-like strings becoming ints)
+        kind = list(D.NAME_KINDS)[case["seed"] % len(D.NAME_KINDS)]
+        d = D.rename(d, D.NAME_KINDS[kind](5))
         if rng.random() < 0.5:
             d.insert(rng.randrange(len(d) + 1), [])
         da, db = A.mk_dataset(d), A.mk_dataset([[list(b) for b in r] for r in d])
@@ -483,7 +487,17 @@ def check_case(case):
                                              "expected": True}})
             if fails:
                 break
-            m = H._mutate(da, rng)
+            m = None
+            alpha = set(e for e in da.universe if not str(A.val(e)).isdigit())
+            if step == 0 and alpha and len(alpha) < len(da.universe) and rng.random() < 0.6:
+                # remove exactly the names that are not integer-like
+                try:
+                    da.remove_elements(alpha)
+                    m = "remove_elements(%s)" % sorted(str(e) for e in alpha)
+                except Exception:
+                    m = None
+            if m is None:
+                m = H._mutate(da, rng)
             if m is None:
                 break
             steps.append(m)
